@@ -225,7 +225,9 @@ func c11Job(raw json.RawMessage) (interface{}, error) {
 				c := calls[i]
 				cur = i
 				curDesc = fmt.Sprintf("%s handle=%x handle2=%x", c.Op, c.H, c.H2)
+				vrt.SetHorizon(vrt.Steps() + 1_000_000) // per request: more scheduling points than that is a loop that never ends
 				r := fsx.Exec(w.Srv, c.Op, c.H, c.H2)
+				vrt.SetHorizon(vrt.Steps() + 20_000_000)
 				out.Calls++
 				out.Replies[fmt.Sprintf("%s=>%d", a.Proc, r.Status)]++
 				if i%64 == 63 || i == len(calls)-1 {
@@ -246,8 +248,8 @@ func c11Job(raw json.RawMessage) (interface{}, error) {
 				out.Viols = append(out.Viols, v)
 			}
 			start = cur + 1 // continue with the next call on a fresh instance
-			if cur < 0 {
-				break
+			if cur < 0 || len(out.Viols) >= 4 {
+				break // (several requests of this batch already crash or wedge the server: the rest adds nothing)
 			}
 			continue
 		}
